@@ -45,9 +45,11 @@ def _expand_branch(mol_graph, current, anchor, recipe):
     for bdx, (n_mon, attributes, order) in enumerate(recipe):
         if bdx == 0:
             anchor = current
-        for _ in range(0, n_mon):
+        for mdx in range(0, n_mon):
             mol_graph.add_node(current, **attributes)
-            mol_graph.add_edge(prev_node, current, order=order)
+            # only the first copy of a multiplied node takes the bond order
+            # written in front of it; the copies are bonded by single bonds
+            mol_graph.add_edge(prev_node, current, order=order if mdx == 0 else 1)
 
             prev_node = current
             current += 1
